@@ -1,4 +1,5 @@
 import GeomV.C01.Lemmas
+import GeomV.C01.Const
 /-!
 # C01 theorems (property: polygon boolean operations implement point-set semantics)
 
@@ -314,6 +315,160 @@ theorem C01_inclusion_exclusion_pointwise (core : ClipCore) (hcore : CoreSpec co
     C01_pointset core hcore A B .diff p hvr hva hgp hor hoa, C01_pointset core hcore A B .xor p hvr hva hgp hor hoa]
   cases member A p <;> cases member B p <;> decide
 
+/-! ## one sample decides a cell -/
+
+/-- a box operand is non-degenerate (polygons: no condition) -/
+def boxOK : Operand → Bool
+  | .box mn mx => decide (mn.x < mx.x) && decide (mn.y < mx.y)
+  | _ => true
+
+theorem member_eq_inside_boxOK (A : Operand) (p : P) (hv : boxOK A = true)
+    (ho : onBoundary A.rings p = false) : member A p = inside A.rings p := by
+  cases A with
+  | poly rs => rfl
+  | multi ps => simp [member, Operand.rings, inside_flatten]
+  | box mn mx =>
+    simp only [boxOK, Bool.and_eq_true, decide_eq_true_eq] at hv
+    simp only [Operand.rings] at ho
+    simp only [member, Operand.rings, inside_cons, inside_nil, Bool.xor_false]
+    exact (insideRing_rect mn mx p hv.1 hv.2 ho).symm
+
+/-- membership in an operand is constant along a segment that does not meet its boundary -/
+theorem member_const (A : Operand) (p q : P) (hv : boxOK A = true) (hf : FreeC A.rings p q) :
+    member A p = member A q := by
+  have hp : onBoundary A.rings p = false := by have := hf 0 (le_refl _) zero_le_one; rwa [lerp_zero] at this
+  have hq : onBoundary A.rings q = false := by have := hf 1 zero_le_one (le_refl _); rwa [lerp_one] at this
+  rw [member_eq_inside_boxOK A p hv hp, member_eq_inside_boxOK A q hv hq]
+  exact inside_const A.rings p q hf
+
+/-- rings of a result -/
+def resRings : Option Operand → Contours
+  | none => []
+  | some o => o.rings
+
+def resOK : Option Operand → Bool
+  | none => true
+  | some o => boxOK o
+
+/-- **One sample per cell decides the cell** (`sample_cell_const`). If the closed segment `pq` meets no
+edge of `A`, of `B` or of the result `R` — e.g. `p`, `q` in the same open cell of the arrangement of
+all these edges, cells of the slab decomposition being convex — then the result is right at `p` iff
+it is right at `q`.  So the per-case oracle's verdict at the sample point of a cell holds on the
+whole cell.  (Missing for `slabCheck_sound`: that the slab/ordering construction enumerates cells
+that are indeed free of edges, and the treatment of the sliver cells created by rounded result
+vertices.) -/
+theorem sample_cell_const (op : Op) (A B : Operand) (R : Option Operand) (p q : P)
+    (hA : boxOK A = true) (hB : boxOK B = true) (hR : resOK R = true)
+    (fA : FreeC A.rings p q) (fB : FreeC B.rings p q) (fR : FreeC (resRings R) p q) :
+    (memberRes R p = opBool op (member A p) (member B p)) ↔
+    (memberRes R q = opBool op (member A q) (member B q)) := by
+  have eR : memberRes R p = memberRes R q := by
+    cases R with
+    | none => rfl
+    | some o => exact member_const o p q hR fR
+  rw [eR, member_const A p q hA fA, member_const B p q hB fB]
+
+/-! ## the cells of the slab decomposition are free of edges -/
+
+/-- the edge's abscissae cover the slab `[x0, x1]` -/
+def spans (e : P × P) (x0 x1 : Rat) : Bool :=
+  (decide (e.1.x ≤ x0) && decide (x1 ≤ e.2.x)) || (decide (e.2.x ≤ x0) && decide (x1 ≤ e.1.x))
+
+/-- no vertex has its abscissa strictly inside the slab (slab between consecutive events) -/
+def noVertexInside (cs : Contours) (x0 x1 : Rat) : Bool :=
+  cs.all fun r => r.all fun v => !(decide (x0 < v.x) && decide (v.x < x1))
+
+/-- `p`, `q` in the open slab, strictly on the same side of every edge that spans it (the cell of
+the slab decomposition: the gap between two consecutive spanning edges) -/
+def sameCell (cs : Contours) (x0 x1 : Rat) (p q : P) : Bool :=
+  decide (x0 < p.x) && decide (p.x < x1) && decide (x0 < q.x) && decide (q.x < x1) &&
+  cs.all fun r => (edges r).all fun e =>
+    !spans e x0 x1 || (decide (sgn (orient e.1 e.2 p) = sgn (orient e.1 e.2 q)) && decide (sgn (orient e.1 e.2 p) ≠ 0))
+
+theorem sgn_same {u v : Rat} (h : sgn u = sgn v) (hne : sgn u ≠ 0) : (0 < u ∧ 0 < v) ∨ (u < 0 ∧ v < 0) := by
+  unfold sgn at h hne
+  by_cases h1 : 0 < u
+  · by_cases h2 : 0 < v
+    · exact Or.inl ⟨h1, h2⟩
+    · simp only [h1, h2, if_true, if_false] at h
+      by_cases h3 : v < 0 <;> simp [h3] at h
+  · by_cases h3 : u < 0
+    · by_cases h2 : 0 < v
+      · simp [h1, h3, h2] at h
+      · by_cases h4 : v < 0
+        · exact Or.inr ⟨h3, h4⟩
+        · simp [h1, h3, h2, h4] at h
+    · simp [h1, h3] at hne
+
+/-- **cells of a slab are free of edges**: in a slab that contains no vertex, two points that lie
+strictly on the same side of every spanning edge are joined by a segment that meets no edge -/
+theorem slab_cell_free (cs : Contours) (x0 x1 : Rat) (p q : P)
+    (hnv : noVertexInside cs x0 x1 = true) (hc : sameCell cs x0 x1 p q = true) : FreeC cs p q := by
+  simp only [sameCell, Bool.and_eq_true, decide_eq_true_eq] at hc
+  obtain ⟨⟨⟨⟨px0, px1⟩, qx0⟩, qx1⟩, hall⟩ := hc
+  intro s s0 s1
+  by_contra hb
+  have hb : onBoundary cs (lerp p q s) = true := by simpa using hb
+  simp only [onBoundary, List.any_eq_true] at hb
+  obtain ⟨r, hr, e, he, hon⟩ := hb
+  have mx0 : x0 < (lerp p q s).x := by
+    simp only [lerp]; nlinarith [mul_nonneg s0 (sub_nonneg.2 qx0.le), mul_nonneg (sub_nonneg.2 s1) (sub_nonneg.2 px0.le)]
+  have mx1 : (lerp p q s).x < x1 := by
+    simp only [lerp]; nlinarith [mul_nonneg s0 (sub_nonneg.2 qx1.le), mul_nonneg (sub_nonneg.2 s1) (sub_nonneg.2 px1.le)]
+  obtain ⟨m1, m2⟩ := mem_edges r e he
+  have nv : ∀ v ∈ r, ¬ (x0 < v.x ∧ v.x < x1) := by
+    intro v hv
+    simp only [noVertexInside, List.all_eq_true, Bool.not_eq_true', Bool.and_eq_false_iff,
+      decide_eq_false_iff_not] at hnv
+    rcases hnv r hr v hv with h | h
+    · exact fun hh => h hh.1
+    · exact fun hh => h hh.2
+  have hsp : spans e x0 x1 = true := by
+    simp only [onSeg, between, Bool.and_eq_true, Bool.or_eq_true, decide_eq_true_eq] at hon
+    simp only [spans, Bool.or_eq_true, Bool.and_eq_true, decide_eq_true_eq]
+    have n1 := nv e.1 m1
+    have n2 := nv e.2 m2
+    rcases hon.1.2 with ⟨a1, a2⟩ | ⟨a1, a2⟩
+    · left
+      constructor
+      · by_contra hc; rw [not_le] at hc; exact n1 ⟨hc, by linarith⟩
+      · by_contra hc; rw [not_le] at hc; exact n2 ⟨by linarith, hc⟩
+    · right
+      constructor
+      · by_contra hc; rw [not_le] at hc; exact n2 ⟨hc, by linarith⟩
+      · by_contra hc; rw [not_le] at hc; exact n1 ⟨by linarith, hc⟩
+  have hs := List.all_eq_true.1 (List.all_eq_true.1 hall r hr) e he
+  simp only [hsp, Bool.not_true, Bool.false_or, Bool.and_eq_true, decide_eq_true_eq] at hs
+  have ho : orient e.1 e.2 (lerp p q s) = 0 := by
+    simp only [onSeg, Bool.and_eq_true, decide_eq_true_eq] at hon; exact hon.1.1
+  rw [orient_lerp] at ho
+  rcases sgn_same hs.1 hs.2 with ⟨a, b⟩ | ⟨a, b⟩
+  · rcases eq_or_lt_of_le s0 with rfl | s0'
+    · simp at ho; linarith
+    · nlinarith [mul_pos s0' b, mul_nonneg (sub_nonneg.2 s1) a.le]
+  · rcases eq_or_lt_of_le s0 with rfl | s0'
+    · simp at ho; linarith
+    · nlinarith [mul_neg_of_pos_of_neg s0' b, mul_nonneg (sub_nonneg.2 s1) (neg_nonneg.2 a.le)]
+
+/-- **a checked cell is certified** (`slabCell_sound`): let the slab `(x0,x1)` contain no vertex of
+`A`, `B` or the result `R`; if the result is right at the sample point `q`, it is right at every
+point `p` of the same cell.  What is still missing for `slabCheck_sound` (acceptance of the whole
+check ⇒ right at every off-boundary point off the event abscissae): (i) that the gaps enumerated at
+the slab's midline are all the cells (the order of the spanning edges does not change inside a slab
+because all crossings are events — an intermediate-value argument per pair of edges), and (ii) the
+sliver cells skipped by the margin filter, which no exact checker can certify since the result's
+vertices are rounded. -/
+theorem slabCell_sound (op : Op) (A B : Operand) (R : Option Operand) (x0 x1 : Rat) (p q : P)
+    (hA : boxOK A = true) (hB : boxOK B = true) (hR : resOK R = true)
+    (nA : noVertexInside A.rings x0 x1 = true) (nB : noVertexInside B.rings x0 x1 = true)
+    (nR : noVertexInside (resRings R) x0 x1 = true)
+    (cA : sameCell A.rings x0 x1 p q = true) (cB : sameCell B.rings x0 x1 p q = true)
+    (cR : sameCell (resRings R) x0 x1 p q = true)
+    (hq : memberRes R q = opBool op (member A q) (member B q)) :
+    memberRes R p = opBool op (member A p) (member B p) :=
+  (sample_cell_const op A B R p q hA hB hR (slab_cell_free _ x0 x1 p q nA cA)
+    (slab_cell_free _ x0 x1 p q nB cB) (slab_cell_free _ x0 x1 p q nR cR)).2 hq
+
 /-! ## clause 2: closed rings -/
 
 theorem closeRing_closed (r : Ring) : closeRing r ≠ [] ∧ (closeRing r).head? = (closeRing r).getLast? := by
@@ -420,6 +575,9 @@ contour lists (even–odd membership is additive); no instance for the other ope
 per-case oracle verdicts of the correspondence run -/
 example (s c : Contours) (p : P) : inside (s ++ c) p = opBool .xor (inside s p) (inside c p) := by
   simp [inside_append, opBool]
+
+/-- the cell hypotheses of `slab_cell_free` / `slabCell_sound` are satisfiable -/
+example : noVertexInside unitC 0 1 = true ∧ sameCell unitC 0 1 ⟨1/4, 1/2⟩ ⟨3/4, 1/4⟩ = true := by decide +kernel
 
 /-- the fixed glue on the same witness: both squares come back (for every sweep core) -/
 example (core : ClipCore) : api core unitSq farSq .xor = some (.poly
